@@ -34,8 +34,11 @@ func (u *URL) formatSSH() string {
 	// Add port if present. A zero port is also written out if the path begins
 	// with something that the SCP-style parser would take for a port
 	// specification (e.g. the URL parsed from "host:0:80:path"), because the
-	// result wouldn't otherwise parse back to the same URL.
-	if u.Port != 0 || pathResemblesPortSpecification(u.Path) {
+	// result wouldn't otherwise parse back to the same URL. The same applies if
+	// the result would otherwise start with the Docker URL prefix (e.g. the URL
+	// parsed from "docker:0://container/path", an SSH URL for a host named
+	// "docker"), because it would parse back as a Docker URL.
+	if u.Port != 0 || pathResemblesPortSpecification(u.Path) || isDockerURL(result+":"+u.Path) {
 		result = fmt.Sprintf("%s:%d", result, u.Port)
 	}
 
